@@ -187,6 +187,8 @@ class TsMape(Contract):
             out["non_negative"] = z(res) >= 0
         if a._kind == "naive":
             S = _absdiff_sum(E, a.expected_y, a.sample_weight, n)
+            from pyvc.ghost import sum_congr_all
+            sum_congr_all(E)
             if isnum:
                 out["naive_forecast_scores_1_unless_series_constant"] = z3.Implies(S != 0, z(res) == 1)
             else:
